@@ -16,7 +16,7 @@ use tokio::io::{AsyncRead, AsyncReadExt, AsyncWrite, AsyncWriteExt};
 
 #[derive(Serialize, Deserialize, Clone, Debug)]
 pub struct TcpConn {
-    /// 0 TCP-port remote, 1 Unix-socket remote, 2 SOCKS4, 3 SOCKS4a, 4 SOCKS5/IPv4, 5 SOCKS5/domain, 6 SOCKS5/IPv6, 7 HTTP CONNECT (host name), 8 HTTP CONNECT (IPv6 literal)
+    /// 0 TCP-port remote, 1 Unix-socket remote, 2 SOCKS4, 3 SOCKS4a, 4 SOCKS5/IPv4, 5 SOCKS5/domain, 6 SOCKS5/IPv6, 7 HTTP CONNECT (host name), 8 HTTP CONNECT (IPv6 literal), 9 SOCKS5/domain resolving to [::1, 127.0.0.1] with the service on 127.0.0.1 only
     pub entry: u8,
     pub start_ms: u64,
     /// write chunk sizes local client -> target / target -> local client
@@ -164,7 +164,7 @@ async fn entry_handshake<S: AsyncRead + AsyncWrite + Unpin>(s: &mut S, entry: u8
             }
             Ok(())
         }
-        4..=6 => {
+        4..=6 | 9 => {
             s.write_all(&[5, 1, 0]).await.map_err(e)?;
             let mut m = [0u8; 2];
             s.read_exact(&mut m).await.map_err(|x| format!("SOCKS5 method reply: {x}"))?;
@@ -181,6 +181,12 @@ async fn entry_handshake<S: AsyncRead + AsyncWrite + Unpin>(s: &mut S, entry: u8
                     req.push(3);
                     req.push(10);
                     req.extend(b"target.sim");
+                }
+                9 => {
+                    // a name with two addresses; the service listens on the second one only
+                    req.push(3);
+                    req.push(8);
+                    req.extend(b"dual.sim");
                 }
                 _ => {
                     req.push(4);
@@ -492,6 +498,7 @@ pub fn run(plan: &C01Plan, sched: &Sched) -> Outcome {
         let plan = plan2;
         penguin_simnet::with(|w| {
             w.dns.insert("target.sim".into(), vec![std::net::Ipv4Addr::LOCALHOST.into()]);
+            w.dns.insert("dual.sim".into(), vec![std::net::Ipv6Addr::LOCALHOST.into(), std::net::Ipv4Addr::LOCALHOST.into()]);
         });
         let cres: Rc<RefCell<Vec<ConnRes>>> = Rc::new(RefCell::new(vec![ConnRes::default(); plan.tcp.len()]));
         let ures: Rc<RefCell<Vec<UdpRes>>> = Rc::new(RefCell::new(vec![UdpRes::default(); plan.udp.len()]));
@@ -646,7 +653,7 @@ pub fn run(plan: &C01Plan, sched: &Sched) -> Outcome {
     if client_state != "running" {
         o.violate("C01:client-exited", format!("the client ended during the run: {client_state}"));
     }
-    let entry_name = |e: u8| ["TCP-port remote", "Unix-socket remote", "SOCKS4", "SOCKS4a", "SOCKS5/IPv4", "SOCKS5/domain", "SOCKS5/IPv6", "HTTP CONNECT", "HTTP CONNECT/IPv6 literal"][e.min(8) as usize];
+    let entry_name = |e: u8| ["TCP-port remote", "Unix-socket remote", "SOCKS4", "SOCKS4a", "SOCKS5/IPv4", "SOCKS5/domain", "SOCKS5/IPv6", "HTTP CONNECT", "HTTP CONNECT/IPv6 literal", "SOCKS5/domain with two addresses"][e.min(9) as usize];
     for (i, c) in plan.tcp.iter().enumerate() {
         let r = &cres[i];
         let (up, down) = (total(&c.up), total(&c.down));
